@@ -128,8 +128,8 @@ def condsHold (r : Rule) (g : NGate) : Bool := r.conds.all fun c => c g
 /-- the channels rule `r` (number `i`) attaches to gate `g` (empty if it does not apply). -/
 def ruleChannels (i : Nat) (r : Rule) (g : NGate) : List Item :=
   if condsHold r g then
-    let qs := ruleQubits r g
-    if qs.isEmpty then [] else (channelQubits r.kind qs).map fun c => Item.chan i r.kind c
+    if (ruleQubits r g).isEmpty then []
+    else (channelQubits r.kind (ruleQubits r g)).map fun c => Item.chan i r.kind c
   else []
 
 /-- the body of the loop over `errors_list`: append to `channels_before` (readout) or to
@@ -172,17 +172,23 @@ inductive QItem (α : Type)
 /-- `coefficient_sum`. -/
 def coeffSum (ops : List (α × MGate α)) : α := (ops.map (·.1)).foldl (· + ·) 0
 
-/-- `apply_channel` once the index has been sampled. -/
-def applyChoice (ops : List (α × MGate α)) (i : Nat) (ψ : Lab → α) : Lab → α :=
-  match ops[i]? with
-  | some pu => applyGate pu.2 ψ
-  | none => ψ
+/-- what the sampled entry does to the state: `gates[index]`, or nothing for the extra
+index `len(gates)`. -/
+def optApply : Option (α × MGate α) → (Lab → α) → (Lab → α)
+  | some pu, ψ => applyGate pu.2 ψ
+  | none, ψ => ψ
 
-/-- probability of index `i`: `(coefficients + (1 - sum,))[i]`. -/
-def choiceProb (ops : List (α × MGate α)) (i : Nat) : α :=
-  match ops[i]? with
+/-- its probability: `(coefficients + (1 - sum,))[index]`. -/
+def optProb (ops : List (α × MGate α)) : Option (α × MGate α) → α
   | some pu => pu.1
   | none => 1 - coeffSum ops
+
+/-- `apply_channel` once the index has been sampled (`if index != len(gates)`). -/
+def applyChoice (ops : List (α × MGate α)) (i : Nat) (ψ : Lab → α) : Lab → α :=
+  optApply ops[i]? ψ
+
+/-- probability of index `i`. -/
+def choiceProb (ops : List (α × MGate α)) (i : Nat) : α := optProb ops ops[i]?
 
 /-- one state-vector shot with the sampled indices `tape` (one per channel, in order). -/
 def runTape : List (QItem α) → List Nat → (Lab → α) → (Lab → α)
